@@ -60,6 +60,10 @@ def run(ctx):
         n = pick(ctx, 400, 5000)
         # in simulation TLC evaluates Emit on every successor of the last state: ~8 behaviours per requested trace
         behs += ctx.tlc_generate(sd, "RetentionGen", "GS.cfg", num=n // 6, depth=gl + 1, timeout=1500)[:n]
+        # half of the behaviours additionally truncate their groups; the choice is part of the behaviour (init record),
+        # so that a behaviour replayed alone is built exactly as it was in the batch
+        for i, b in enumerate(behs):
+            b[0]["trunc"] = (i % 2 == 1)
     inp = {"Unknown": 9}
 
     def run_h(behs, label):
